@@ -22,6 +22,14 @@
 (*                non-emitting: lpe = lpe(prev) + ln 0.75,                 *)
 (*                lpne = min(lpne(prev), lt + lo), lp = lpe + lpne.        *)
 (*                                                                         *)
+(* The third family (Newson-Krumm) shares the composition rules and the     *)
+(* geometry; its transition term is -|d_o - d_s| / beta (beta_ne when      *)
+(* either end is non-emitting) with d_s by the curvature rule and no       *)
+(* accumulation; its emission term ln(2 (1 - Phi(d / sigma))) is not        *)
+(* computable in integer arithmetic and is taken from the recorded         *)
+(* per-step value, of which only sign and the value at distance 0 are      *)
+(* checked.                                                                *)
+(*                                                                         *)
 (* Numbers recorded from the code are fixed point (MX = 1/1000 for log-    *)
 (* probabilities, distances and squared distances; relative positions      *)
 (* 1/10000); every formula is a relation with an explicit slack.  Map      *)
@@ -90,8 +98,22 @@ PenDistance(p, e) ==
 DtC(e) == (e.do - e.ds) \div 10        \* |d_o - d_s| in 1/100
 LtDistance(p, e) == -((DtC(e) * DtC(e) * Beta2(p, e)[2]) \div (10 * Beta2(p, e)[1])) + PenDistance(p, e)
 LtDistTol(p, e) == 6 + ((2 * AbsV(DtC(e)) + 2) * Beta2(p, e)[2]) \div (5 * Beta2(p, e)[1]) + AbsV(LtDistance(p, e)) \div 100
-LtModel(p, e) == IF R.cls = "simple" THEN LtSimple(p, e) ELSE LtDistance(p, e)
-LtTol(p, e) == IF R.cls = "simple" THEN 2 ELSE LtDistTol(p, e)
+\* Newson-Krumm: d_s by the curvature rule (same state: along the edge; otherwise to the end of the previous edge and on),
+\* no accumulation, transition term -|d_o - d_s| / beta
+NK == R.cls = "newsonkrumm"
+DsNK(p, e) == IF SameLabel(p, e) THEN e.ca ELSE e.cb1 + e.cb2
+NKBeta(p, e) == IF p.ne # 0 \/ e.ne # 0 THEN R.nkbetane ELSE R.nkbeta
+LtNK(p, e) == -((AbsV(e.do - e.ds) * NKBeta(p, e)[2]) \div NKBeta(p, e)[1])
+LtNKTol(p, e) == 3 + (3 * NKBeta(p, e)[2]) \div NKBeta(p, e)[1]
+LtModel(p, e) == IF R.cls = "simple" THEN LtSimple(p, e) ELSE IF NK THEN LtNK(p, e) ELSE LtDistance(p, e)
+LtTol(p, e) == IF R.cls = "simple" THEN 2 ELSE IF NK THEN LtNKTol(p, e) ELSE LtDistTol(p, e)
+\* emission term used in the composition: the model value, or (Newson-Krumm) the recorded per-step value
+Lo(e) == IF NK THEN e.lpe1 ELSE LoModel(e)
+\* 2 (1 - Phi(x)) underflows to 0 beyond about 8.3 sigma: the term is minus infinity (recorded as -10^8) and so is
+\* every score it enters
+IsNegInf(x) == x <= -50000000
+NKInfinite(e) == NK /\ (IsNegInf(e.lpe1) \/ (e.prev # 0 /\ (IsNegInf(E[e.prev].lp) \/ (e.ne # 0 /\ IsNegInf(E[e.prev].lpne)))))
+NKEmissionOK(e) == NK => (e.lpe1 <= 1 /\ (e.d2 = 0 => AbsV(e.lpe1) <= 1))
 
 \* ---- first failing clause of one entry ("" = conforms)
 EntryClause(e) ==
@@ -99,17 +121,21 @@ EntryClause(e) ==
   ELSE IF ~DistOK(e) THEN "distance-fields-inconsistent"
   ELSE IF ~TiOK(e) THEN "relative-position-is-not-the-nearest-point"
   ELSE IF ~PiOK(e) THEN "matched-point-is-not-the-nearest-point"
+  ELSE IF NKInfinite(e) THEN (IF IsNegInf(e.lp) THEN "" ELSE "minus-infinity-not-propagated")
+  ELSE IF ~NKEmissionOK(e) THEN "emission-term"
   ELSE IF e.prev = 0 THEN
-       (IF AbsV(e.lp - LoModel(e)) > LoTol(e) THEN "first-state-probability-is-not-the-emission-term"
+       (IF AbsV(e.lp - Lo(e)) > LoTol(e) THEN "first-state-probability-is-not-the-emission-term"
         ELSE IF e.len # 1 THEN "length" ELSE "")
   ELSE LET p == E[e.prev]
-           lo == LoModel(e)
+           lo == Lo(e)
            lt == LtModel(p, e)
            tol == LoTol(e) + LtTol(p, e) + 3 IN
        IF R.cls = "distance" /\ AbsV(e.lpe1 - lo) > LoTol(e) THEN "emission-term"
        ELSE IF R.cls = "distance" /\ AbsV(e.ds - DsModel(p, e)) > 4 THEN "distance-between-states-(d_s)"
        ELSE IF R.cls = "distance" /\ AbsV(e.do - DoModel(p, e)) > 4 THEN "distance-between-observations-(d_o)"
-       ELSE IF R.cls = "distance" /\ AbsV(e.lpt - lt) > LtTol(p, e) THEN "transition-term"
+       ELSE IF NK /\ AbsV(e.ds - DsNK(p, e)) > 4 THEN "distance-between-states-(d_s)"
+       ELSE IF NK /\ AbsV(e.do - e.cz) > 4 THEN "distance-between-observations-(d_o)"
+       ELSE IF R.cls # "simple" /\ AbsV(e.lpt - lt) > LtTol(p, e) THEN "transition-term"
        ELSE IF e.ne = 0 THEN
             (IF e.len # p.len + 1 THEN "length"
              ELSE IF AbsV(e.lp - (p.lp + lt + lo)) > tol THEN "emitting-step-is-not-previous-plus-transition-plus-emission"
